@@ -10,6 +10,12 @@
 //!            Two variants of the static schema exist: the plain one, and one that additionally
 //!            registers a custom field directive called `ifdef`; the variant a case runs against is
 //!            the one whose dump the case carries (`run` looks for a `(dirdef "ifdef" …)` entry).
+//!            A THIRD variant has the same field set but merged roots: Query and Mutation are
+//!            `#[derive(MergedObject)]` of `#[Object]` parts, Subscription is a
+//!            `#[derive(MergedSubscription)]` of two `#[Subscription]` parts (root names `MQuery`,
+//!            `MMutation`, `MSubscription` — `run` recognises the variant by the query root's name).
+//!            The dump lists, as `(subflag NAME…)`, the object types registered with
+//!            `is_subscription: true`: the flag `visit_selection` goes by.
 //!   DOC      the document as a tree (printed by the harness to TEXT, which is what is executed)
 //!   OPNAME   none | "name";  VARS supplied variable values
 //! Output: (out STAGE (errs (MSG NLOCS)…) RAN (later MSG…))
@@ -91,6 +97,27 @@ fn build(obs: Arc<Mutex<Obs>>, with_ifdef: bool) -> Schema<Query, Mutation, Subs
     b.validation_mode(ValidationMode::Strict).extension(ObsF(obs)).finish()
 }
 
+fn build_merged(obs: Arc<Mutex<Obs>>) -> Schema<MQuery, MMutation, MSubscription> {
+    Schema::build(MQuery(QPartA, QPartB, QPartC), MMutation(MPartA, MPartB), MSubscription(SPartA, SPartB))
+        .directive(concat)
+        .directive(tagged)
+        .validation_mode(ValidationMode::Strict)
+        .extension(ObsF(obs))
+        .finish()
+}
+
+/// is the query root of the schema description the merged one?
+fn case_is_merged(vschema: &Sexp) -> bool {
+    vschema.args().first().and_then(|sc| sc.args().first()).and_then(|q| q.as_str()) == Some("MQuery")
+}
+
+fn schema_sexp_merged() -> Sexp {
+    let obs = Arc::new(Mutex::new(Obs { want_dump: true, ..Default::default() }));
+    let schema = build_merged(obs.clone());
+    let _ = spin_on(schema.execute("{ __typename }"));
+    obs.lock().unwrap().dump.take().expect("registry dump (merged roots)")
+}
+
 /// does the schema description of a case contain a directive definition called `ifdef`?
 fn case_has_ifdef(vschema: &Sexp) -> bool {
     vschema.args().get(1).map(|d| d.args().iter().any(|x| x.args().first().and_then(|n| n.as_str()) == Some("ifdef"))).unwrap_or(false)
@@ -134,7 +161,7 @@ fn gen_case_dynamic(rng: &mut Rng, i: usize, dist: &mut Dist) -> Sexp {
         // the same generator, the same 52 mutations; there is one variant only (the dynamic API cannot
         // register an executable directive, hence no `ifdef` variant)
         let mut local = Dist::default();
-        let (doc, opname, vars, _) = gen_request(&sd.1, &sd.1, rng, i, &mut local);
+        let (doc, opname, vars, _) = gen_request(&[&sd.1], rng, i, &mut local);
         for (k, n) in &local.0 {
             if !k.starts_with("gen_schema_") {
                 dist.add(&format!("dyn_{k}"), *n);
@@ -159,12 +186,13 @@ fn gen_case(rng: &mut Rng, i: usize, o: &Opts, dist: &mut Dist) -> Sexp {
         return gen_case_dynamic(rng, i, dist);
     }
     thread_local! {
-        static SD: [(Sexp, SchemaD); 2] = [false, true].map(|v| { let s = schema_sexp(v); let d = SchemaD::from_sexp(&s); (s, d) });
+        static SD: [(Sexp, SchemaD); 3] = [0, 1, 2].map(|v| { let s = if v == 2 { schema_sexp_merged() } else { schema_sexp(v == 1) }; let d = SchemaD::from_sexp(&s); (s, d) });
     }
     SD.with(|sds| {
-        let (doc, opname, vars, variant) = gen_request(&sds[0].1, &sds[1].1, rng, i, dist);
-        let sx = &sds[variant as usize].0;
-        debug_assert_eq!(case_has_ifdef(sx), variant);
+        let (doc, opname, vars, variant) = gen_request(&[&sds[0].1, &sds[1].1, &sds[2].1], rng, i, dist);
+        let sx = &sds[variant].0;
+        debug_assert_eq!(case_has_ifdef(sx), variant == 1);
+        debug_assert_eq!(case_is_merged(sx), variant == 2);
         let text = print_doc(&doc);
         node(
             "case",
@@ -187,13 +215,15 @@ fn run(case: &Sexp, dist: &mut Dist) -> Sexp {
     let text = a[4].as_str().unwrap();
     let obs = Arc::new(Mutex::new(Obs::default()));
     let with_ifdef = case_has_ifdef(&a[0]);
+    let merged = !dynamic_flavour && case_is_merged(&a[0]);
     let pre = if dynamic_flavour { "dyn_" } else { "" };
-    dist.hit(if dynamic_flavour { "dyn_schema_dynamic" } else if with_ifdef { "schema_with_ifdef_directive" } else { "schema_plain" });
+    dist.hit(if dynamic_flavour { "dyn_schema_dynamic" } else if merged { "schema_merged_roots" } else if with_ifdef { "schema_with_ifdef_directive" } else { "schema_plain" });
     enum Either {
         S(Schema<Query, Mutation, Subscription>),
         D(dynamic::Schema),
+        M(Schema<MQuery, MMutation, MSubscription>),
     }
-    let schema = if dynamic_flavour { Either::D(build_dyn(obs.clone())) } else { Either::S(build(obs.clone(), with_ifdef)) };
+    let schema = if dynamic_flavour { Either::D(build_dyn(obs.clone())) } else if merged { Either::M(build_merged(obs.clone())) } else { Either::S(build(obs.clone(), with_ifdef)) };
     dynflavour::DYN_RESOLVER_CALLS.store(0, std::sync::atomic::Ordering::SeqCst);
     let mut req = Request::new(text);
     if let Some(n) = &opname {
@@ -222,6 +252,7 @@ fn run(case: &Sexp, dist: &mut Dist) -> Sexp {
         let s: futures_util::stream::BoxStream<'static, Response> = match &schema {
             Either::S(x) => Box::pin(x.execute_stream(req)),
             Either::D(x) => x.execute_stream(req),
+            Either::M(x) => Box::pin(x.execute_stream(req)),
         };
         futures_util::pin_mut!(s);
         let mut n = 0;
@@ -237,6 +268,7 @@ fn run(case: &Sexp, dist: &mut Dist) -> Sexp {
         match &schema {
             Either::S(x) => spin_on(x.execute(req)).errors,
             Either::D(x) => spin_on(x.execute(req)).errors,
+            Either::M(x) => spin_on(x.execute(req)).errors,
         }
     };
     let logged = dynflavour::DYN_RESOLVER_CALLS.load(std::sync::atomic::Ordering::SeqCst);
